@@ -166,16 +166,52 @@ pub fn asymmetric(seed: u64) -> Vec<LargeInput> {
     out
 }
 
+/// inputs with more than a thousand items that are unique on a side (anchor-heavy Patience
+/// runs; caps / heuristics on the number of anchors only show here)
+pub fn many_unique(_seed: u64) -> Vec<LargeInput> {
+    let mut out = vec![];
+    for &blocks in &[300usize, 520, 700] {
+        // block i: old = S_i M_i 0 0 0, new = S_i 0 0 0 M_i  (S_i, M_i unique)
+        let mut o = vec![];
+        let mut n = vec![];
+        for i in 0..blocks as u32 {
+            o.extend_from_slice(&[10_000 + i, 50_000 + i, 0, 0, 0]);
+            n.extend_from_slice(&[10_000 + i, 0, 0, 0, 50_000 + i]);
+        }
+        out.push(LargeInput { name: format!("unique-blocks-{}", blocks), old: o, new: n });
+    }
+    for &n in &[1100usize, 2100] {
+        let b: Vec<u32> = (0..n as u32).map(|i| 1000 + i).collect();
+        let mut s = b.clone();
+        for i in 0..20 {
+            s[(n * (2 * i + 1)) / 40] = 90_000 + i as u32;
+        }
+        out.push(LargeInput { name: format!("unique-distinct-{}-20-substitutions", n), old: b.clone(), new: s });
+        // two interleaved halves
+        let mut v = vec![];
+        for i in 0..n / 2 {
+            v.push(b[i]);
+            v.push(b[n / 2 + i]);
+        }
+        out.push(LargeInput { name: format!("unique-distinct-{}-interleaved", n), old: b, new: v });
+    }
+    out
+}
+
 pub fn all(tier: Tier, seed: u64) -> Vec<LargeInput> {
     let mut v = vec![];
     for n in sizes(tier) {
         v.extend(family(n, seed));
     }
     v.extend(asymmetric(seed));
+    v.extend(many_unique(seed));
     v
 }
 
 pub fn find(name: &str, seed: u64) -> Option<LargeInput> {
+    if name.starts_with("unique-") {
+        return many_unique(seed).into_iter().find(|f| f.name == name);
+    }
     if name.starts_with("asym-") {
         return asymmetric(seed).into_iter().find(|f| f.name == name);
     }
@@ -188,6 +224,7 @@ pub fn describe(tier: Tier) -> serde_json::Value {
     serde_json::json!({
         "sizes": sizes(tier),
         "bases": BASES,
+        "many_unique": "300/520/700 blocks S_i M_i 0 0 0 vs S_i 0 0 0 M_i; 1100/2100 distinct items with 20 substitutions or two interleaved halves",
         "asymmetric": "side lengths 1x600, 2x530, 10x520, 40x800, 255x300, 257x256 (both orientations): unrelated, subsequence, one common item, 4-symbol random",
         "shapes": "identical; 1/3/8/n/5 evenly spread substitutions, deletions, insertions, duplicated items; block move; block appended; halves swapped; shift by one; versus empty / single; common prefix only; common suffix only; unrelated; reversed; independent random texts over 2/4/16 symbols; shuffled unique anchors with junk",
         "note": "enumerated family, not exhaustive",
